@@ -66,7 +66,19 @@ void harness(void) {
   g_zc.slots = &it->metadata.tag_metadata.tagged_item; g_zc.n = 1;
   g_zc.hdr = 1 + spec_shortest_argbytes(it->metadata.tag_metadata.value);
 #endif
-#ifdef SER_SIZE
+#if defined(SER_ALLOC)
+  /* cbor_serialize_alloc: every allocator request may be refused */
+  g_alloc_forbidden = false;
+  unsigned char **pbuf = mk_block(sizeof(*pbuf));
+  size_t *psize = nondet_bool() ? NULL : mk_block(sizeof(*psize));
+  size_t live0 = g_live;
+  size_t r = cbor_serialize_alloc(it, pbuf, psize);
+  __CPROVER_assert(r != 0, "COVER serialize_alloc failed (allocation refused)");
+  __CPROVER_assert(r == 0, "COVER serialize_alloc succeeded");
+  __CPROVER_assert(!(r != 0 && psize == NULL), "COVER size pointer omitted");
+  (void)live0;
+  return;
+#elif defined(SER_SIZE)
   size_t r = SER_FN(it);
 #if defined(SER_KIND_ARRAY) || defined(SER_KIND_MAP) || defined(SER_KIND_INDEF_STRING) || defined(SER_KIND_INDEF_BYTESTRING) || defined(SER_KIND_TAG)
   __CPROVER_assert(r != 0, "COVER size not representable (0)");
